@@ -25,6 +25,12 @@ type C14Plan struct {
 	Subs    []SubSpec  `json:"subs,omitempty"`
 	Hooks   []HookSpec `json:"hooks,omitempty"`
 	Writers [][]WOp    `json:"writers"`
+	// ShutFirst: the database system is shut down before the subscriptions that are still active are cancelled
+	// (a component that cleans up late): after cancel returns the feed is closed all the same
+	ShutFirst bool `json:"shut_first,omitempty"`
+	// Fill: one subscriber that sees everything does not read until exactly as many matching records were written as
+	// its feed holds (the last of them finds one free place: the buffer is not full), then reads on
+	Fill bool `json:"fill,omitempty"`
 }
 
 // SubSpec describes one subscription.
@@ -50,6 +56,9 @@ type HookSpec struct {
 	CancelAfter int    `json:"cancel_after"`
 	SameQueryAs int    `json:"same_query_as"`
 	Slow        bool   `json:"slow,omitempty"` // the hook takes a millisecond (and lets other goroutines run meanwhile)
+	// ObjectOf >= 0: this registration hands in the very Hook object of that earlier registration (one object
+	// watching two disjoint key ranges); -1 otherwise
+	ObjectOf int `json:"object_of"`
 }
 
 // WOp is a writer operation.
@@ -61,10 +70,19 @@ type WOp struct {
 	Arg   int    `json:"arg,omitempty"`
 }
 
+// pairs of prefixPool indices that no key of keyPool matches both
+var disjointPrefixes = [][2]int{{1, 3}, {3, 6}, {1, 5}, {10, 4}, {6, 1}, {4, 10}}
+
 var c14Sleep = []time.Duration{0, time.Millisecond, 5 * time.Millisecond, 30 * time.Millisecond}
 
 func genC14(rng *rand.Rand, tier string) *C14Plan {
 	p := &C14Plan{Backend: []string{"hashmap", "hashmap", "fstree", "bbolt"}[rng.IntN(4)], Shadow: rng.IntN(2) == 0, RegLate: rng.IntN(4) == 0}
+	if rng.IntN(60) == 0 {
+		p.Backend, p.RegLate, p.Fill = "hashmap", false, true
+		p.Subs = []SubSpec{{Prefix: 0, Local: true, Internal: true, CancelAfter: -1, SameQueryAs: -1}}
+		p.Writers = [][]WOp{{{Kind: "put", Key: rng.IntN(len(keyPool)), Seed: rng.IntN(1000)}}}
+		return p
+	}
 	hookActions := rng.IntN(3) == 0
 	ns := 1 + rng.IntN(4)
 	if hookActions {
@@ -97,7 +115,7 @@ func genC14(rng *rand.Rand, tier string) *C14Plan {
 		nh = 1 + rng.IntN(2)
 	}
 	for i := 0; i < nh; i++ {
-		h := HookSpec{Prefix: rng.IntN(len(prefixPool)), PreGet: rng.IntN(2) == 0, PostGet: rng.IntN(2) == 0, PrePut: rng.IntN(2) == 0, CancelAfter: -1, SameQueryAs: -1, Slow: rng.IntN(3) == 0}
+		h := HookSpec{Prefix: rng.IntN(len(prefixPool)), PreGet: rng.IntN(2) == 0, PostGet: rng.IntN(2) == 0, PrePut: rng.IntN(2) == 0, CancelAfter: -1, SameQueryAs: -1, Slow: rng.IntN(3) == 0, ObjectOf: -1}
 		if rng.IntN(3) == 0 {
 			h.Cond = genCond(rng, 1)
 		}
@@ -109,9 +127,31 @@ func genC14(rng *rand.Rand, tier string) *C14Plan {
 		if i > 0 && rng.IntN(4) == 0 {
 			h.SameQueryAs = rng.IntN(i)
 			h.Prefix, h.Cond = p.Hooks[h.SameQueryAs].Prefix, p.Hooks[h.SameQueryAs].Cond
+		} else if i > 0 && !hookActions && rng.IntN(3) == 0 {
+			// the same Hook object registered for a second, disjoint key range
+			j := rng.IntN(i)
+			taken := false
+			for _, x := range p.Hooks {
+				if x.ObjectOf == j {
+					taken = true
+				}
+			}
+			if o := p.Hooks[j]; o.ObjectOf < 0 && o.SameQueryAs < 0 && !taken {
+				pair := disjointPrefixes[rng.IntN(len(disjointPrefixes))]
+				p.Hooks[j].Prefix, p.Hooks[j].Cond = pair[0], nil
+				h.Prefix, h.Cond = pair[1], nil
+				h.PreGet, h.PostGet, h.PrePut, h.Slow, h.Action = o.PreGet, o.PostGet, o.PrePut, o.Slow, o.Action
+				h.ObjectOf = j
+				for k := range p.Hooks {
+					if p.Hooks[k].SameQueryAs == j {
+						p.Hooks[k].Prefix, p.Hooks[k].Cond = pair[0], nil
+					}
+				}
+			}
 		}
 		p.Hooks = append(p.Hooks, h)
 	}
+	p.ShutFirst = rng.IntN(6) == 0
 	nw := 1 + rng.IntN(3)
 	if hookActions {
 		nw = 1
@@ -178,6 +218,18 @@ type hookState struct {
 	calls                []hookCall
 	s                    *c14State
 	idx                  int
+	obj                  *hookState   // the Hook object handed to RegisterHook (h itself unless ObjectOf is set)
+	aliases              []*hookState // registrations that handed in this object for another key range
+}
+
+// route: the registration a call for dbKey belongs to (the key ranges of one object are disjoint)
+func (h *hookState) route(dbKey string) *hookState {
+	for _, a := range h.aliases {
+		if strings.HasPrefix(dbKey, prefixPool[a.spec.Prefix]) {
+			return a
+		}
+	}
+	return h
 }
 
 func (h *hookState) UsesPreGet() bool  { return h.spec.PreGet }
@@ -195,6 +247,7 @@ func (h *hookState) slow() {
 
 func (h *hookState) PreGet(dbKey string) error {
 	h.slow()
+	h = h.route(dbKey)
 	h.calls = append(h.calls, hookCall{G: simrt.GID(), Phase: "preget", Key: dbKey, Seq: simrt.Seq()})
 	if h.spec.Action == "veto" && h.spec.PreGet && !h.spec.PostGet && !h.spec.PrePut {
 		return errVeto
@@ -216,6 +269,7 @@ func idOfLocked(r record.Record) string {
 
 func (h *hookState) PostGet(r record.Record) (record.Record, error) {
 	h.slow()
+	h = h.route(r.DatabaseKey())
 	h.calls = append(h.calls, hookCall{G: simrt.GID(), Phase: "postget", Key: r.DatabaseKey(), ID: idOfLocked(r), Seq: simrt.Seq()})
 	switch h.spec.Action {
 	case "veto":
@@ -234,6 +288,7 @@ func (h *hookState) PostGet(r record.Record) (record.Record, error) {
 
 func (h *hookState) PrePut(r record.Record) (record.Record, error) {
 	h.slow()
+	h = h.route(r.DatabaseKey())
 	h.calls = append(h.calls, hookCall{G: simrt.GID(), Phase: "preput", Key: r.DatabaseKey(), ID: idOfLocked(r), Seq: simrt.Seq()})
 	switch h.spec.Action {
 	case "veto":
@@ -266,10 +321,14 @@ type c14State struct {
 	injCtl     *database.Controller
 	push       func(record.Record)
 	pushPrefix string
+	fillGate   chan struct{} // Fill: closed when the feed has been filled
 }
 
 func execC14(p *C14Plan, rc *simkit.RunCtx) {
 	s := &c14State{p: p, rc: rc}
+	if p.Fill {
+		s.fillGate = make(chan struct{})
+	}
 	rc.Data = s
 	dir, err := openDB(p.Backend, p.Shadow)
 	if err != nil {
@@ -336,7 +395,13 @@ func execC14(p *C14Plan, rc *simkit.RunCtx) {
 		}
 		hq = append(hq, q)
 		h := &hookState{spec: hs, s: s, idx: i}
-		reg, err := database.RegisterHook(q, h)
+		h.obj = h
+		if hs.ObjectOf >= 0 && hs.ObjectOf < len(s.hooks) {
+			h.obj = s.hooks[hs.ObjectOf]
+			h.obj.aliases = append(h.obj.aliases, h)
+			rc.Probe("hook-object-registered-twice")
+		}
+		reg, err := database.RegisterHook(q, h.obj)
 		if err != nil {
 			rc.Fail("C14.harness", "RegisterHook failed", err.Error())
 			return
@@ -352,6 +417,9 @@ func execC14(p *C14Plan, rc *simkit.RunCtx) {
 		n++
 		go func() {
 			defer func() { done <- struct{}{} }()
+			if s.fillGate != nil {
+				<-s.fillGate
+			}
 			for r := range ss.sub.Feed {
 				r.Lock()
 				id := idOfLocked(r)
@@ -399,6 +467,24 @@ func execC14(p *C14Plan, rc *simkit.RunCtx) {
 		wi, ops := wi, ops
 		go func() {
 			defer func() { writersDone <- struct{}{} }()
+			if p.Fill && len(s.subs) == 1 && len(ops) > 0 {
+				// as many puts as the feed holds, none of them read yet
+				op := ops[0]
+				ops = nil
+				iface := database.NewInterface(&database.Options{Local: true, Internal: true})
+				for i, n := 0, cap(s.subs[0].sub.Feed); i < n; i++ {
+					key := keyPool[(op.Key+i)%len(keyPool)]
+					nonceCounter++
+					nonce := fmt.Sprintf("n%d", nonceCounter)
+					f := fieldsFromSeed(op.Seed + i)
+					w := &wrec{Writer: wi, Kind: "put", Key: key, ID: nonce, F: f, Inv: simrt.Seq()}
+					s.writes = append(s.writes, w)
+					w.Err = iface.Put(makeRecord(key, nonce, f, i%2 == 0))
+					w.Ret, w.OK = simrt.Seq(), w.Err == nil
+				}
+				rc.Probe("feed-filled-to-capacity")
+				close(s.fillGate)
+			}
 			for _, op := range ops {
 				key := keyPool[op.Key]
 				switch op.Kind {
@@ -447,6 +533,10 @@ func execC14(p *C14Plan, rc *simkit.RunCtx) {
 	}
 	// cancel what is left so that the drains end
 	time.Sleep(50 * time.Millisecond)
+	if p.ShutFirst {
+		_ = database.Shutdown()
+		rc.Probe("cancel-after-database-shutdown")
+	}
 	for _, ss := range s.subs {
 		if ss.spec.CancelAfter < 0 {
 			ss.cancelInv = simrt.Seq()
@@ -912,7 +1002,7 @@ func shrinkC14(p *C14Plan) []any {
 	for i := len(p.Hooks) - 1; i >= 0; i-- {
 		ref := false
 		for _, s := range p.Hooks {
-			if s.SameQueryAs == i {
+			if s.SameQueryAs == i || s.ObjectOf == i {
 				ref = true
 			}
 		}
@@ -924,6 +1014,9 @@ func shrinkC14(p *C14Plan) []any {
 		for k := range q.Hooks {
 			if q.Hooks[k].SameQueryAs > i {
 				q.Hooks[k].SameQueryAs--
+			}
+			if q.Hooks[k].ObjectOf > i {
+				q.Hooks[k].ObjectOf--
 			}
 		}
 		out = append(out, q)
